@@ -199,11 +199,11 @@ inline void t0_put() {
 // ---------------------------------------------------------------------------------------------- T1(15): border split
 // put of an absent key into a FULL root border: the node splits, a new interior root appears.  Map semantics through
 // the probe, structure through RI, C12: exactly the old border (modified) and the new border (created) change version.
-template<unsigned MAP>
+template<unsigned MAP, unsigned SYMMASK>
 inline void t1_put_split() {
     constexpr unsigned N = 15;
     bstate<N> st;
-    build_border<N>(st, true, MAP);
+    build_border<N>(st, true, MAP, -1, true, SYMMASK);
     tree_instance ti;
     ti.store_root_ptr(st.node);
     session s;
@@ -213,11 +213,13 @@ inline void t1_put_split() {
     int found = ref_find(st, x.ks, x.kl);
     int qfound = ref_find(st, x.qs, x.ql);
     yk_assume(found < 0); // the overwrite / unique cases do not depend on fullness (covered at n <= 3)
+    YK_REACH();
     char nv = (char) yk_nondet_u8();
     char* created = nullptr;
     inserted_node_info ini{nullptr, nullptr};
     node_version64_body v0 = st.node->get_stable_version();
     status rc = put<char>(s.tok(), &ti, sv(x.k), &nv, false, 1, &created, static_cast<value_align_type>(1), &ini);
+    YK_REACH();
     YK_ASSERT(rc == status::OK);
     base_node* root = ti.load_root_ptr();
     YK_ASSERT(root != nullptr && root != st.node && !root->get_version_border());
@@ -270,5 +272,7 @@ YK_ENTRY(H_t1_put_n3, (t1_put<3, 0>()))
 YK_ENTRY(H_t1_put_n14, (t1_put<14, 1>()))
 YK_ENTRY(H_t0_put, (t0_put<false>()))
 YK_ENTRY(H_t0d_put, (t0_put<true>()))
-YK_ENTRY(H_t1_put_split, (t1_put_split<0>()))
-YK_ENTRY(H_t1_put_split_scr, (t1_put_split<1>()))
+// symbolic entries: the two neighbours of the split point (ranks 7, 8); the rest concrete fillers
+YK_ENTRY(H_t1_put_split, (t1_put_split<0, 0x0180>()))
+YK_ENTRY(H_t1_put_split_scr, (t1_put_split<1, 0x0180>()))
+YK_ENTRY(H_t1_put_split_wide, (t1_put_split<0, 0x03c1>()))
